@@ -346,6 +346,20 @@ func discoverRoles(p *Program, e *Engine) (*Roles, error) {
 			}
 		}
 	}
+	// a function that closes done is not a closed-test, even if it contains the test inline
+	var pureTests []*ssa.Function
+	for _, f := range ro.IsClosed {
+		if !containsFn(ro.CloseFns, f) {
+			pureTests = append(pureTests, f)
+		}
+	}
+	ro.IsClosed = pureTests
+	e.NoExpand = map[*ssa.Function]bool{}
+	for _, l := range [][]*ssa.Function{ro.SendEvent, ro.SendError, ro.IsClosed, ro.CloseFns} {
+		for _, f := range l {
+			e.NoExpand[f] = true
+		}
+	}
 	// readers: go statements reachable from the constructor
 	w := e.Walk(ro.Ctor, WalkOpts{NoCond: true})
 	for _, g := range w.GoRoots {
@@ -398,6 +412,30 @@ func (ro *Roles) noteSend(fn *ssa.Function, ch ssa.Value, evSet, erSet map[*type
 func (ro *Roles) isSendEvent(f *ssa.Function) bool { return containsFn(ro.SendEvent, f) }
 func (ro *Roles) isSendError(f *ssa.Function) bool { return containsFn(ro.SendError, f) }
 func (ro *Roles) isIsClosed(f *ssa.Function) bool  { return containsFn(ro.IsClosed, f) }
+// closedLit: is l a test of "the done channel is closed"? Either a call of an isClosed function, or the inlined form:
+// the case index of a non-blocking select whose only case receives from done. saysClosed: the literal holds iff closed.
+func (ro *Roles) closedLit(l Lit) (isTest, saysClosed bool) {
+	if l.A == nil {
+		return false, false
+	}
+	if l.A.Kind == AkPred && l.A.Callee != nil && ro.isIsClosed(l.A.Callee) {
+		return true, !l.Neg
+	}
+	if l.A.Kind == AkCmp && l.A.Op == "==" && l.A.K == "c:0" && l.A.Ctx != nil {
+		if b, ok := l.A.V.(*ssa.BinOp); ok {
+			for _, o := range []ssa.Value{b.X, b.Y} {
+				if ex, ok := o.(*ssa.Extract); ok && ex.Index == 0 {
+					if sel, ok := ex.Tuple.(*ssa.Select); ok && !sel.Blocking && len(sel.States) == 1 &&
+						sel.States[0].Dir == types.RecvOnly && l.A.Ctx.fieldOfValue(sel.States[0].Chan) == ro.Done {
+						return true, !l.Neg
+					}
+				}
+			}
+		}
+	}
+	return false, false
+}
+
 func containsFn(l []*ssa.Function, f *ssa.Function) bool {
 	for _, x := range l {
 		if x == f {
